@@ -655,7 +655,7 @@ def r19_any_all(src, log, kind="vec"):
 
 
 def find_simple_const(src: str, name: str):
-    """`const NAME: T = <literal or simple expression>;` -> (line, text) or None"""
+    """`const NAME: T = EXPR;` (EXPR without a block) -> (line, EXPR) or None"""
     try:
         a, b = find_item(src, "const", name)
     except ExtractError:
@@ -664,13 +664,34 @@ def find_simple_const(src: str, name: str):
     mm = re.search(r"const\s+%s\s*:\s*([^=]+)=\s*([^;]+);" % re.escape(name), text, re.S)
     if not mm or "{" in mm.group(2):
         return None
-    ty = re.sub(r"&\s*(?!')", "&'static ", mm.group(1).strip())
-    if re.search(r"(?<![A-Za-z0-9_])[a-z_]\w*\s*(?:::\s*<[^>]*>\s*)?\(", mm.group(2)):
-        # initializer CALLS a (const) function (lower-case last path segment): an `exec const` lets Verus evaluate it in exec mode (its
-        # value is then opaque to the proof); a tuple / struct literal or an enum / tuple-struct constructor (upper-case segment) keeps
-        # the plain `const` form below, whose value the proof sees
-        return _line_of(src, a), "pub exec const %s: %s ensures true { %s }" % (name, ty, mm.group(2).strip())
-    return _line_of(src, a), "pub const %s: %s = %s;" % (name, ty, mm.group(2).strip())
+    return _line_of(src, a), " ".join(mm.group(2).split())
+
+
+def r14b_const_subst(src, log, cmap):
+    """R14b: every use of an (auto-resolved) module-level const is replaced by its initializer expression - what the compiler
+    does with a `const` item; a single-token initializer (a literal) is substituted as it is (so that it also works in pattern
+    position and for the byte-string rules), anything else in parentheses."""
+    n = 0
+    for _ in range(4):          # an initializer may name another const
+        toks = lex(src); s = sig(toks)
+        edits = []
+        for k, i in enumerate(s):
+            t = toks[i]
+            if t.kind == "ident" and t.text in cmap:
+                prev = toks[s[k - 1]].text if k > 0 else ""
+                nxt = toks[s[k + 1]].text if k + 1 < len(s) else ""
+                if prev in (".", ":") or nxt == ":" or prev in ("const", "static", "let"):
+                    continue
+                init = cmap[t.text]
+                single = len([x for x in lex(init) if x.kind not in ("ws", "comment")]) == 1
+                edits.append((t.start, t.end, init if single else "(" + init + ")"))
+        if not edits:
+            break
+        src = _replace(src, edits)
+        n += len(edits)
+    if n:
+        log["R14b.const_subst"] = {"uses": n, "consts": sorted(cmap)}
+    return src
 
 
 def find_simple_method(src: str, name: str):
@@ -800,7 +821,10 @@ def r20b_inline_fns(src, log, fn_map):
                     if len(args) != len(params):
                         continue
                     sub = dict(zip(params, args))
-                    e2 = "".join(("(" + sub[x.text] + ")") if (x.kind == "ident" and x.text in sub) else x.text for x in lex(expr))
+                    def _arg(a_):
+                        # a single-token argument (a literal, an identifier) is substituted as it is, anything else in parentheses
+                        return a_ if len([y for y in lex(a_) if y.kind not in ("ws", "comment")]) == 1 else "(" + a_ + ")"
+                    e2 = "".join(_arg(sub[x.text]) if (x.kind == "ident" and x.text in sub) else x.text for x in lex(expr))
                     hit = (toks[start_tok].start, toks[c].end, "(" + e2 + ")")
                     break
             if hit is None:
@@ -983,10 +1007,15 @@ def r25_map_collect(src, log):
 
 
 
+def _strip_parens_around_bytelit(src):
+    return re.sub(r'([=!]=\s*)\(\s*(b"(?:[^"\\]|\\.)*")\s*\)', r'\1\2', src)
+
+
 def r11_bytelits(src, log, table):
     """b"lit" -> blit_<n>()  ; table collects the generated external_body functions.
     `E == b"lit"` (slice equality against a literal) -> `bytes_eq(E, blit_<n>())`, where the shim
     bytes_eq(a, b) ensures r == (a@ == b@): std's PartialEq for slices (same length, elementwise equal)."""
+    src = _strip_parens_around_bytelit(src)
     toks = lex(src); m = match_brackets(toks); s = sig(toks)
     edits = []
     neq = 0
@@ -1657,6 +1686,8 @@ def process_template(tpl_path: str, repo: str, variant: dict | None = None) -> U
     """variant: optional {'ensures_false': fn_id} to build the vacuity canary for one function"""
     variant = variant or {}
     tpl = []
+    variant = dict(variant)
+    variant["_template_idents"] = set(re.findall(r"[A-Za-z_]\w*", open(tpl_path).read()))
     for raw in open(tpl_path).read().split("\n"):
         im = re.match(r"^\s*//@include\s+(\S+)", raw)
         if im:
@@ -1832,15 +1863,6 @@ def process_template(tpl_path: str, repo: str, variant: dict | None = None) -> U
             else:
                 raise
         i = j + 1
-    # constants pulled in automatically (R20b): placed just before the end of the verus! block
-    if variant.get("extra_consts"):
-        idx = max((ix for ix, gl in enumerate(res.lines) if gl.text.strip().startswith("} // verus!")), default=None)
-        if idx is not None:
-            extra = []
-            for (cfile, cline, ctext) in variant["extra_consts"]:
-                for off, l in enumerate(ctext.split("\n")):
-                    extra.append(GenLine(l, ("src", cfile, cline + off)))
-            res.lines[idx:idx] = extra
     # byte literal table
     out = []
     for gl in res.lines:
@@ -2019,6 +2041,18 @@ def _gen_function(kv, sections, repo, res: UnitResult, variant) -> list:
         body = r20_inline(body, log, variant["inline"])
     if variant.get("inline_fns"):
         body = r20b_inline_fns(body, log, variant["inline_fns"])
+    # module-level consts of the same source file that the template does not know about (typically introduced by a refactoring)
+    # are resolved up front: an unknown upper-case identifier in PATTERN position would otherwise silently become a catch-all binding
+    cmap_ = dict(variant.get("const_subst") or {})
+    known_ = variant.get("_template_idents", set())
+    for nm_ in sorted(set(t.text for t in lex(body) if t.kind == "ident" and re.fullmatch(r"[A-Z][A-Z0-9_]{2,}", t.text))):
+        if nm_ in cmap_ or nm_ in known_:
+            continue
+        cc_ = find_simple_const(src, nm_)
+        if cc_:
+            cmap_[nm_] = cc_[1]
+    if cmap_:
+        body = r14b_const_subst(body, log, cmap_)
     for r in rules:
         if r == "R7":
             body = r7_apply(body, log, kv.get("r7map", "result"), kv.get("r7pathmap", "result"), kv.get("r7mapor", "option"))
